@@ -301,7 +301,7 @@ example : (pluginRule d13Witness).byweekno = none ∧ (pluginRule d13Witness).by
     without zone, datetime string with or without offset — `until`, `include` and `exclude` denote
     the described instant *to the second* and carry the described zone: dates at the start's time
     of day in the start's zone, datetimes in their own zone (naive = UTC, as for `start_date`),
-    a datetime-valued `until` with its time. (Sub-second precision: see `date_arg_instant_*`.) -/
+    a datetime-valued `until` with its time. (Sub-second precision: `date_arg_instant`.) -/
 theorem zone_consistency (sSod sUs : Nat) (off : Int) (a : DateArg) :
     normUntil sSod off a = intendedUntil sSod off a ∧
     (normDateArg sSod sUs off a).map (fun i => (i.abs, i.off)) =
@@ -314,55 +314,80 @@ theorem date_args_total (sSod sUs : Nat) (off : Int) (a : DateArg) :
     (normDateArg sSod sUs off a).isSome = true := by
   cases a <;> rfl
 
-/-- **date_arg_instant — full statement `∀ sSod sUs off a, normDateArg sSod sUs off a =
-    intendedDateArg sSod off a` is refuted (D53):** with a start of `…:59.99` a date-valued
-    `include` / `exclude` is placed at `.99` s, but `rrule` drops the microseconds of `dtstart`
-    and emits `…:59.00` — the date does not denote the rule's occurrence of that date. -/
-theorem date_arg_instant_refuted :
-    ∃ (sSod sUs : Nat) (off : Int) (a : DateArg), normDateArg sSod sUs off a ≠ intendedDateArg sSod off a :=
-  ⟨86399, 990000, 28800, .date 738826, by decide⟩
-
-/-- **date_arg_instant_partial.** For a start on a whole second every form of the argument
-    denotes exactly the described instant. -/
-theorem date_arg_instant_partial (sSod : Nat) (off : Int) (a : DateArg) :
-    normDateArg sSod 0 off a = intendedDateArg sSod off a := by
+/-- **date_arg_instant** (full strength since fix 8a555f7). For *every* start — fractional
+    seconds included — and every form of the argument, an `include` / `exclude` entry denotes
+    exactly the described instant, at microsecond resolution: a date stands for the rule's own
+    occurrence of that date (whole second, start's zone), a datetime for the instant it says. -/
+theorem date_arg_instant (sSod sUs : Nat) (off : Int) (a : DateArg) :
+    normDateArg sSod sUs off a = intendedDateArg sSod off a := by
   cases a <;> rfl
 
-/-- **excluded_date_hits_occurrence — refuted (D53).** The statement "the value a date-valued
-    `exclude` / `include` stands for is the instant at which the rule occurs on that date" fails
-    for a fractional start: the keys differ, so `rruleset` neither excludes the occurrence nor
-    merges an included date with it (the date is emitted a second time, at `.99`). -/
-theorem excluded_date_hits_occurrence_refuted :
+/-- **excluded_date_hits_occurrence** (full strength). For every rule, every date and whatever
+    the start's microseconds were: the value a date-valued `exclude` / `include` stands for *is*
+    the instant at which the rule occurs on that date — so excluding the date removes that
+    occurrence (and including it adds nothing twice). -/
+theorem excluded_date_hits_occurrence (r : Rule) (sUs d : Nat) :
+    normDateArg r.sSod sUs r.off (.date d) = some (atStartTime r.sSod r.off d) ∧
+    (atStartTime r.sSod r.off d).key = (r.inst (d * 86400 + r.sSod)).key ∧
+    combine [r.inst (d * 86400 + r.sSod)] [] [atStartTime r.sSod r.off d] [] [] = [] ∧
+    (combine [r.inst (d * 86400 + r.sSod)] [atStartTime r.sSod r.off d] [] [] []).length = 1 := by
+  have hk : (atStartTime r.sSod r.off d).key = (r.inst (d * 86400 + r.sSod)).key := by
+    simp only [atStartTime, Rule.inst, Inst.key]
+    omega
+  refine ⟨rfl, hk, ?_, ?_⟩
+  · cases hc : combine [r.inst (d * 86400 + r.sSod)] [] [atStartTime r.sSod r.off d] [] [] with
+    | nil => rfl
+    | cons x t =>
+      have hx : x.key ∈ (combine [r.inst (d * 86400 + r.sSod)] [] [atStartTime r.sSod r.off d] [] []).map (·.key) := by
+        rw [hc]; simp
+      rw [combine_mem] at hx
+      obtain ⟨h1, h2⟩ := hx
+      simp only [List.nil_append, List.flatten_nil, List.append_nil, List.map_cons, List.map_nil,
+        List.mem_singleton] at h1 h2
+      exact absurd (h1.trans hk.symm) h2
+  · -- included date and own occurrence are one instant: emitted once
+    have hs := combine_sorted [r.inst (d * 86400 + r.sSod)] [atStartTime r.sSod r.off d] [] [] []
+    have hm := combine_mem [r.inst (d * 86400 + r.sSod)] [atStartTime r.sSod r.off d] [] [] []
+    cases hc : combine [r.inst (d * 86400 + r.sSod)] [atStartTime r.sSod r.off d] [] [] [] with
+    | nil =>
+      have := (hm (r.inst (d * 86400 + r.sSod)).key).2 ⟨by simp, by simp⟩
+      rw [hc] at this
+      cases this
+    | cons x t =>
+      cases t with
+      | nil => rfl
+      | cons y t' =>
+        rw [hc] at hs
+        have hxy : x.key < y.key := (List.pairwise_cons.1 hs).1 y (by simp)
+        have mem_key : ∀ z, z ∈ x :: y :: t' → z.key = (r.inst (d * 86400 + r.sSod)).key := by
+          intro z hz
+          have : z.key ∈ (combine [r.inst (d * 86400 + r.sSod)] [atStartTime r.sSod r.off d] [] [] []).map (·.key) := by
+            rw [hc]; exact List.mem_map.2 ⟨z, hz, rfl⟩
+          have h1 := ((hm z.key).1 this).1
+          simp only [List.flatten_nil, List.append_nil, List.cons_append, List.nil_append, List.map_cons,
+            List.map_nil, List.mem_cons, List.not_mem_nil, or_false] at h1
+          rcases h1 with h | h
+          · exact h.trans hk
+          · exact h
+        have hx := mem_key x (by simp)
+        have hy := mem_key y (by simp)
+        omega
+
+/-- **the old behaviour (before 8a555f7, D53) against the same statement:** keeping the start's
+    microseconds, the excluded date's instant differs from the occurrence's and the exclusion
+    removes nothing — a statement about the explicitly named old model `atStartTimeKeepingMicros`,
+    kept as the regression witness (start `23:59:59.99+08:00`, date 2023-11-01). -/
+theorem old_behaviour_missed_occurrence :
     ∃ (r : Rule) (sUs d : Nat),
-      (atStartTime r.sSod sUs r.off d).key ≠ (r.inst (d * 86400 + r.sSod)).key ∧
-      combine [r.inst (d * 86400 + r.sSod)] [] [atStartTime r.sSod sUs r.off d] [] [] ≠ [] := by
+      (atStartTimeKeepingMicros r.sSod sUs r.off d).key ≠ (r.inst (d * 86400 + r.sSod)).key ∧
+      combine [r.inst (d * 86400 + r.sSod)] [] [atStartTimeKeepingMicros r.sSod sUs r.off d] [] [] ≠ [] := by
   refine ⟨{ mwf with sSod := 86399, off := 28800 }, 990000, 738826, by decide, ?_⟩
   intro h
   have hm := (combine_mem [({ mwf with sSod := 86399, off := 28800 } : Rule).inst (738826 * 86400 + 86399)] []
-    [atStartTime 86399 990000 28800 738826] [] [] ((738826 * 86400 + 86399 - 28800 : Int) * 1000000)).2
+    [atStartTimeKeepingMicros 86399 990000 28800 738826] [] [] ((738826 * 86400 + 86399 - 28800 : Int) * 1000000)).2
     ⟨by decide, by decide⟩
   rw [h] at hm
   cases hm
-
-/-- **excluded_date_hits_occurrence_partial.** With a whole-second start the date stands for
-    exactly the rule's instant of that date, and excluding it removes that occurrence. -/
-theorem excluded_date_hits_occurrence_partial (r : Rule) (d : Nat) :
-    (atStartTime r.sSod 0 r.off d).key = (r.inst (d * 86400 + r.sSod)).key ∧
-    combine [r.inst (d * 86400 + r.sSod)] [] [atStartTime r.sSod 0 r.off d] [] [] = [] := by
-  have hk : (atStartTime r.sSod 0 r.off d).key = (r.inst (d * 86400 + r.sSod)).key := by
-    simp only [atStartTime, Rule.inst, Inst.key]
-    omega
-  refine ⟨hk, ?_⟩
-  cases hc : combine [r.inst (d * 86400 + r.sSod)] [] [atStartTime r.sSod 0 r.off d] [] [] with
-  | nil => rfl
-  | cons x t =>
-    have hx : x.key ∈ (combine [r.inst (d * 86400 + r.sSod)] [] [atStartTime r.sSod 0 r.off d] [] []).map (·.key) := by
-      rw [hc]; simp
-    rw [combine_mem] at hx
-    obtain ⟨h1, h2⟩ := hx
-    simp only [List.nil_append, List.flatten_nil, List.append_nil, List.map_cons, List.map_nil,
-      List.mem_singleton] at h1 h2
-    exact absurd (h1.trans hk.symm) h2
 
 /-- the inputs that exposed the repaired zone defects (D21 `+05:00` start with a date-valued
     `until`; D35 a datetime-valued `until` at 05:00 with a 10:00 start; D36 a naive timestamp):
@@ -370,7 +395,7 @@ theorem excluded_date_hits_occurrence_partial (r : Rule) (d : Nat) :
 example :
     normUntil 36000 18000 (.date 738948) = (738948 : Int) * 86400 + 36000 - 18000 ∧
     normUntil 36000 0 (.dtObj 738948 18000 0 none) = (738948 : Int) * 86400 + 18000 ∧
-    normDateArg 36000 0 18000 (.date 738947) = some ⟨(738947 : Int) * 86400 + 36000 - 18000, 18000, 0⟩ ∧
+    normDateArg 36000 990000 18000 (.date 738947) = some ⟨(738947 : Int) * 86400 + 36000 - 18000, 18000, 0⟩ ∧
     normDateArg 36000 0 0 (.dtObj 738947 36000 0 none) = some ⟨(738947 : Int) * 86400 + 36000, 0, 0⟩ := by
   decide
 
